@@ -365,6 +365,27 @@ class Ctx:
         else:
             self.assume(goal)
 
+    def try_prove(self, oid, goal, note="", timeout_ms=3000):
+        """opportunistic lemma premise: try to discharge `goal` now; only if that succeeds is it registered (as a
+        discharged obligation) and True returned.  Used to enable engine lemmas whose premise happens to hold."""
+        if getattr(self, "solving", False):
+            return False
+        from . import solve
+        n0 = len(self.obligations)
+        self.oblige(oid, goal, "lemma-premise", None, note)
+        ob = self.obligations.pop()
+        assert len(self.obligations) == n0
+        try:
+            self.solving = True
+            r = solve.solve_obligation(self, ob, timeout_ms, use_cvc5=False, want_model=False)
+        finally:
+            self.solving = False
+        if r["status"] == "unsat":
+            ob.presolved = r
+            self.obligations.append(ob)
+            return True
+        return False
+
     def induct(self, oid, P, trigger, lo=0, hi=None):
         """Lemma by induction, stated in a contract: obligations  P(lo)  and  P(k) -> P(k+1)  (lo <= k, k+1 <= hi),
         then the conclusion  forall k in [lo, hi]. P(k)  becomes an instantiable hypothesis on `trigger`."""
